@@ -298,6 +298,16 @@ func runCase(c *kase) {
 			dinit = "cap:0"
 		}
 		c.dl = []string{"N " + f[1] + " " + dinit + " " + f[3]}
+	case 'H':
+		ops := splitOps(f[1])
+		c.impl = execH(ops)
+		c.spec = specH(ops)
+		for i := range c.spec {
+			if c.spec[i] == "?" && i < len(c.impl) {
+				c.spec[i] = c.impl[i]
+			}
+		}
+		c.dl = []string{c.line}
 	case 'T':
 		runTable(c)
 	case 'Q':
@@ -502,6 +512,28 @@ func judge(c *kase, rep *vh.Report) {
 		if d := firstDiff(c.impl, model); d >= 0 {
 			rep.Fail("correspondence", typeNames[t]+"."+numName[strings.Split(at(ops, d), ":")[0]]+":model-disagrees",
 				fmt.Sprintf("op #%d %s: implementation %s, model %s", d, vh.Clip(at(ops, d), 60), vh.Clip(at(c.impl, d), 60), vh.Clip(at(model, d), 60)),
+				replayOf(c, map[string]interface{}{"op_index": d}))
+		}
+	case 'H':
+		ops := splitOps(f[1])
+		rep.Case(c.line, len(ops) > 0)
+		for i, op := range ops {
+			n := strings.Split(op, "/")[0]
+			rep.Count("H.op." + n)
+			if at(c.impl, i) == "p" {
+				rep.Count("H.panic." + n)
+			}
+		}
+		model := splitOps(c.dout[0])
+		if d := firstDiff(c.impl, c.spec); d >= 0 {
+			rep.Fail("property", "StatGeneralPack."+strings.Split(at(ops, d), "/")[0]+"@history:"+classify(at(c.impl, d), at(c.spec, d)),
+				fmt.Sprintf("pack history: op #%d %s answers %s, the table of lists (wire columns merged with the in-memory ones) gives %s", d, vh.Clip(at(ops, d), 60), vh.Clip(at(c.impl, d), 100), vh.Clip(at(c.spec, d), 100)),
+				replayOf(c, map[string]interface{}{"op_index": d}))
+			return
+		}
+		if d := firstDiff(c.impl, model); d >= 0 {
+			rep.Fail("correspondence", "StatGeneralPack."+strings.Split(at(ops, d), "/")[0]+"@history:model-disagrees",
+				fmt.Sprintf("op #%d %s: implementation %s, model %s", d, vh.Clip(at(ops, d), 60), vh.Clip(at(c.impl, d), 100), vh.Clip(at(model, d), 100)),
 				replayOf(c, map[string]interface{}{"op_index": d}))
 		}
 	case 'T':
